@@ -171,7 +171,7 @@ PROPS = {
         "trusted_base": ["Model.Scope and Model.Instrument are tied by the differential on random histories"],
     },
     "C11": {
-        "suites": ["scope-c11"],
+        "suites": ["scope-c11", "c11conc"],
         "assumptions": COMMON_ASSUME + [
             "Model.Scope is sequential: one API call at a time (concurrency of these paths is C01/C02/C07/C09)",
             "the registry shard of a request is observed through a shim and given to the model as an input",
